@@ -132,19 +132,29 @@ def edit_cases(rng, n, maxcmds=8, screen=0):
         out.append(case(f, b"".join(parts), rows, cols, screen))
     return out
 
+U8 = ["é", "ß", "中", "文", "ل", "ا", "م", "\u0301", "\u200c", "𝄞", "a", "Z", "ｗ"]
+def junk_keys(rng, n):
+    """arbitrary keys whose text is valid UTF-8: ASCII incl. control characters, and whole multi-byte characters"""
+    out = b""
+    for _ in range(n):
+        k = rng.below(10)
+        if k < 5: out += bytes([rng.pick(b"dcyxp.u@\"123 hjklwbe$0^GfFtT;,/?nN\n\x1b:iaoOIAJr~<>{}%'`m\x12\x04\x15|_-+HML\x01\x06\x02\x05\x19zgZsSCDXYPR")])
+        elif k < 8: out += bytes([rng.below(128)])
+        else: out += rng.pick(U8).encode()
+    return out
+
 def junk_cases(rng, n):
-    """arbitrary key bytes (well-formedness under ASan; C05)"""
+    """nonsensical and truncated key streams over valid UTF-8 text (C05)"""
     out = []
     for i in range(n):
-        f = gen_file(rng)
-        if f is not None and rng.below(3) == 0:
-            f = bytes(rng.below(255) + 1 for _ in range(rng.below(60)))
+        f = gen_file(rng, long=(rng.below(10) == 0))
         m = rng.below(4)
-        if m == 0: ks = bytes(rng.below(256) for _ in range(1 + rng.below(40)))
-        elif m == 1: ks = bytes(rng.pick(b"dcyxp.u@\"123 hjklwbe$0^GfFtT;,/?nN\n\x1b:iaoOIAJr~<>{}%'`m\x12\x04\x15") for _ in range(1 + rng.below(40)))
+        if m < 2: ks = junk_keys(rng, 1 + rng.below(50))
         else:
             ks = b"".join((motion(rng) if rng.below(2) else edit(rng)) for _ in range(1 + rng.below(12)))
-            ks = bytes(b if rng.below(30) else rng.below(256) for b in ks)
+            if m == 3:
+                cut = rng.below(len(ks) + 1); ks = ks[:cut] + junk_keys(rng, rng.below(8)) + ks[cut:]
         rows, cols = geometry(rng)
+        if rng.below(8) == 0: rows, cols = 2 + rng.below(4), 2 + rng.below(8)
         out.append(case(f, ks, rows, cols))
     return out
